@@ -84,6 +84,48 @@ namespace oratio_verif
       return r;
     }
 
+    // difference logic: distance and predecessor matrices over the existing variables, the responsible constraints
+    template <typename T>
+    static std::string dl_str(const T &th)
+    {
+      std::string r = "n=" + std::to_string(th.n_vars) + " d:";
+      for (size_t i = 0; i < th.n_vars; ++i)
+      {
+        r += "[";
+        for (size_t j = 0; j < th.n_vars; ++j)
+          r += (j ? " " : "") + dl_val(th._dists[i][j]);
+        r += "]";
+      }
+      r += " p:";
+      for (size_t i = 0; i < th.n_vars; ++i)
+      {
+        r += "[";
+        for (size_t j = 0; j < th.n_vars; ++j)
+          r += (j ? " " : "") + (th._preds[i][j] == std::numeric_limits<size_t>::max() ? std::string("-") : std::to_string(th._preds[i][j]));
+        r += "]";
+      }
+      r += " c:";
+      for (const auto &[k, c] : th.dist_constr)
+        r += " " + std::to_string(k.first) + ">" + std::to_string(k.second) + "=" + std::to_string(variable(c->b));
+      r += " layers:" + std::to_string(th.layers.size()) + " vd:";
+      std::vector<var> bs;
+      for (const auto &[b, c] : th.var_dists)
+        bs.push_back(b);
+      std::sort(bs.begin(), bs.end());
+      for (const auto &b : bs)
+      {
+        const auto &c = th.var_dists.at(b);
+        r += " " + std::to_string(b) + "=" + std::to_string(c->from) + ">" + std::to_string(c->to) + ":" + dl_val(c->dist);
+      }
+      return r;
+    }
+    static std::string dl_val(const I &v) { return v == idl_theory::inf() ? "inf" : std::to_string(v); }
+    static std::string dl_val(const inf_rational &v) { return hv_show(v); }
+    static std::string hv_show(const inf_rational &r)
+    {
+      return std::to_string(r.get_rational().numerator()) + "/" + std::to_string(r.get_rational().denominator()) + "," + std::to_string(r.get_infinitesimal().numerator()) + "/" + std::to_string(r.get_infinitesimal().denominator());
+    }
+
     // canonical dumps --------------------------------------------------------------------
     static std::string vals_str(const sat_core &s)
     {
